@@ -186,6 +186,16 @@ CORPUS = [
                             [(4.0, 1.0), (3.0, 0.0), (4.0, 0.0)]]),
     ('hole-touching-vertex-ray', [[(0.0, 0.0), (8.0, 0.0), (8.0, 8.0), (0.0, 8.0), (-2.0, 4.0)],
                                   [(3.0, 4.0), (5.0, 5.0), (5.0, 3.0)]]),
+    # two leftmost hole vertices with equal x: `_get_leftmost` must break the tie by smaller y
+    # (upstream rule); with the first-encountered rule the bridge crossed the hole and the
+    # triangles overlapped (area 186.125 instead of 184.375, vertex 8 unused)
+    ('leftmost-tie', [[(9.25, -6.25), (-7.75, -3.25), (-5.75, -1.25), (-4.75, 6.75), (8.25, 9.75)],
+                      [(6.75, -3.75), (4.25, -3.75), (4.25, -1.25)],
+                      [(-4.25, 0.25), (-5.25, 0.25), (-5.25, -0.75)]]),
+    ('leftmost-tie-first-lower', [[(0.0, 0.0), (12.0, 0.0), (12.0, 10.0), (0.0, 10.0)],
+                                  [(4.0, 3.0), (4.0, 6.0), (7.0, 5.0)]]),
+    ('leftmost-tie-duplicate', [[(0.0, 0.0), (12.0, 0.0), (12.0, 10.0), (0.0, 10.0)],
+                                [(4.0, 6.0), (4.0, 3.0), (4.0, 3.0), (7.0, 5.0)]]),
     ('stale-outer', [[(15.25, -4.5), (15.25, -5.0), (13.75, -5.0), (13.25, -5.0), (9.75, -5.0),
                       (9.75, -4.5), (9.75, -4.0), (10.25, -4.0), (10.25, -3.5), (10.25, -2.5),
                       (10.25, -2.0), (12.25, -2.0), (14.25, -2.0), (14.75, -2.0), (14.75, -2.5),
